@@ -32,7 +32,8 @@ W_STEPDOWN_RACE = [2, 60, [[0], [1, 2], [2, 2], [4, 70], [0], [6], [12, 2], [8],
 W_PATH_B = [2, 60, [[0], [1, 2], [2, 2], [4, 70], [6], [7, 5]], 0]                          # apply completion serves with no ack
 W_PATH_A_DUP = [2, 60, [[0], [1, 2], [2, 2], [4, 70], [6], [10, 2]], 5]                     # duplicate of an old ack serves
 W_HIGHER_TERM_RESPONSE = [2, 60, [[0], [3, 2], [1, 2], [2, 2], [9], [0], [6]], 5]            # a voter that moved on answers with its term: leader steps down
-WITNESSES = [W_HIGHER_TERM_RESPONSE, W_VOTE_INSIDE_LEASE, W_LATE_ACK, W_SINGLE_ACK_OF_FIVE, W_STEPDOWN_RACE, W_PATH_B, W_PATH_A_DUP]
+W_APPLY_LAG = [2, 60, [[1, 2], [2, 2], [6], [10, 2], [1, 3], [2, 3], [7, 5]], 0]           # read queued behind the state machine; acks must not release it
+WITNESSES = [W_APPLY_LAG, W_HIGHER_TERM_RESPONSE, W_VOTE_INSIDE_LEASE, W_LATE_ACK, W_SINGLE_ACK_OF_FIVE, W_STEPDOWN_RACE, W_PATH_B, W_PATH_A_DUP]
 
 def gen_cases(run, thorough, salt, proto_only=False):
     r = run.rng(salt); cases = []; dist = {}
@@ -110,12 +111,14 @@ def timeline(case, out):
     acks = []            # (time processed, f, gid, genuine)
     votes = {}           # follower -> time it granted
     stepdown_at = None   # time the leader handled a higher-term message
+    applied = a0         # what the state machine reports as last_applied (the case sets it: a0, then [7, i])
+    commit_at_arrival = []
     res = []
     for i, (ev, row) in enumerate(zip(evs, out[1:])):
         t0, t1, role, term, commit, dl, tok, st, extra = row
         k = ev[0]; a = ev[1] if len(ev) > 1 else 0
         if k in (0, 6):
-            kinds.append(k); arrival.append((i, t0, sends))
+            kinds.append(k); arrival.append((i, t0, sends)); commit_at_arrival.append(commit)
             # a read that was not answered at once made the leader send a round
         if k == 1 and extra and extra[0] == 1: kept[a].append(sends - 1)
         if k == 1 and extra and extra[0] == 0: kept[a].append(None)
@@ -126,6 +129,7 @@ def timeline(case, out):
             (acks if k == 10 else queued).append((t1, a, lastgid[a]))
         if k in (2, 7, 9, 10) and queued:
             acks.extend((t1, f, g) for (_, f, g) in queued); queued = []
+        if k == 7: applied = a
         if k == 3 and extra == [1]: votes.setdefault(a, t1)
         if k in (5, 8) and role == 3 and stepdown_at is None and dl == 0: stepdown_at = t0
         newly = [j for j, s in enumerate(st) if s == 1 and (j >= len(prev_status) or prev_status[j] == 0)]
@@ -135,5 +139,5 @@ def timeline(case, out):
         prev_status = list(st)
         res.append({'i': i, 't0': t0, 't1': t1, 'k': k, 'arg': a, 'served': newly, 'role': role, 'term': term, 'dl': dl,
                     'acks': list(acks), 'votes': dict(votes), 'stepdown_at': stepdown_at, 'kinds': list(kinds),
-                    'arrival': list(arrival), 'n': n, 'lease': lease})
+                    'arrival': list(arrival), 'n': n, 'lease': lease, 'applied': applied, 'commit_at_arrival': list(commit_at_arrival)})
     return res
